@@ -70,10 +70,10 @@ ASSUMPTIONS = [
     'IDW references skip elements whose k-nearest-neighbour set is not unique (equidistant candidates at the cut)',
 ]
 
-RT = 1e-10            # float64: summation order only
-RT32_BKG = 1e-3       # provisional, see measurement
-RT32_RMS = 1e-3
-RT32 = 3e-5           # float32 / integer input (float32 arithmetic inside the library); measured <= 1.3e-5 (std)
+RT = 1e-10            # float64: summation order only (measured <= 5.6e-15 per box, <= 1.2e-13 between configurations)
+RT32_BKG = 5e-4       # float32 / integer input, background statistic relative to the box's pixel magnitude: measured <= 3.4e-6
+RT32_RMS = 1e-5       # same for the RMS statistic: measured <= 4.8e-8
+RT32 = 3e-5           # float32 / integer input, IDW fill / integer bands relative to the data scale: measured <= 7.5e-8
 REL = 1e-9            # relations, relative to the data scale
 REL32 = 1e-4
 
